@@ -213,9 +213,13 @@ def coq_make(targets, timeout=1500):
     return rc, o
 
 
-def forbidden_scan():
+def forbidden_scan(dirs=None):
+    """scan the .v files of the given sub-directories of coq/ (default: all) for forbidden constructs"""
     bad = []
     for root, _, fs in os.walk(COQ):
+        rel = os.path.relpath(root, COQ).split(os.sep)[0]
+        if dirs is not None and rel not in dirs:
+            continue
         for f in fs:
             if f.endswith(".v"):
                 p = os.path.join(root, f)
@@ -230,7 +234,7 @@ def forbidden_scan():
     return bad
 
 
-def prove(pid, dirname, propfile="Properties.v", extra_targets=()):
+def prove(pid, dirname, propfile="Properties.v", extra_targets=(), deps=()):
     """full .vo build of the property file and what it depends on; capture Print Assumptions"""
     res = {"ok": False, "obligations": 0, "discharged": 0, "assumptions": {}, "failed": [], "log": ""}
     t0 = time.time()
@@ -249,7 +253,7 @@ def prove(pid, dirname, propfile="Properties.v", extra_targets=()):
         pass
     rc, o = coq_make(targets)
     res["log"] = o[-6000:]
-    bad = forbidden_scan()
+    bad = forbidden_scan(set(["Base", dirname]) | set(deps))
     if bad:
         res["failed"].append("forbidden construct: " + "; ".join(bad[:5]))
     if rc == 0 and os.path.exists(os.path.join(COQ, vo)):
@@ -512,7 +516,7 @@ class DiffProperty:
         viol = 0
         if hasattr(self, "probe"):
             self.probe()
-        pr = prove(self.pid, self.coq_dir, self.propfile)
+        pr = prove(self.pid, self.coq_dir, self.propfile, deps=getattr(self, "coq_deps", ()))
         log("[%s] proofs: ok=%s obligations=%d discharged=%d (%.1fs)" % (self.pid, pr["ok"], pr["obligations"], pr["discharged"], pr["wall_s"]))
         if replay:
             cases = [json.load(open(replay))["case"]]
